@@ -1,7 +1,7 @@
 (* C11 - The state journal stays loadable and tamper-evident under any schedule or fault.
    [crc] is any checksum function with 32-bit results, [cmd_ok] any validity test of journalled commands: the
    theorems hold for all of them (no collision-freeness is assumed). *)
-From IggyV Require Import Base.Tactics Base.ListX Base.LE Model.Journal Proofs.JournalProofs.
+From IggyV Require Import Base.Tactics Base.ListX Base.LE Model.Journal Proofs.JournalProofs Proofs.JournalByte.
 Open Scope N_scope.
 
 (* round trip: a well-formed history numbered 0,1,2,... loads back exactly *)
@@ -40,14 +40,21 @@ Theorem C11_apply_always_loadable : forall crc cmd_ok, (forall bs, crc bs < 256 
   load crc cmd_ok (j_file (fold_left (japply crc) cmds j_init)) = inl (applied_entries cmds).
 Proof. exact apply_always_loadable. Qed.
 
-(* FULL statement for single-byte corruption (not yet proved; decided per run by exhaustive mutation of real journals):
-   a file differing from a valid journal in exactly one byte is rejected unless a checksum collision with an original
-   entry is exhibited *)
+(* single-byte corruption: a file differing from a valid journal in exactly one byte is rejected unless a checksum collision
+   with an original entry is exhibited - the altered entry has different content but the same checksum *)
 Definition C11_byte_full : Prop := forall crc cmd_ok, (forall bs, crc bs < 256 ^ 4) ->
   forall es f', Forall (good cmd_ok) es -> chain 0 es ->
   length f' = length (enc_journal crc es) -> (exists i, forall j, j <> i -> nth_error f' j = nth_error (enc_journal crc es) j) ->
   f' <> enc_journal crc es ->
   (exists x, load crc cmd_ok f' = inr x) \/ exists e y, In e es /\ y <> content e /\ crc y = crc (content e).
+
+(* PROVED (Proofs/JournalByte.v), for EVERY checksum function with 32-bit results and every command validity test: whichever
+   byte is altered - in the 44 header bytes (index, term, leader, version, flags, timestamp, user), in the stored checksum, in a
+   length field, in the context or the command, in whichever entry - the loader rejects the file, or the bytes now covered by
+   the unchanged stored checksum differ from the original entry's and collide with it.  (A changed checksum byte alone is always
+   rejected: everything else determines the entry and hence the checksum.) *)
+Theorem C11_single_byte : C11_byte_full.
+Proof. exact byte_full. Qed.
 
 Print Assumptions C11_roundtrip.
 Print Assumptions C11_accepts_only_journals.
@@ -55,3 +62,4 @@ Print Assumptions C11_rearranged.
 Print Assumptions C11_truncated.
 Print Assumptions C11_injective.
 Print Assumptions C11_apply_always_loadable.
+Print Assumptions C11_single_byte.
